@@ -231,7 +231,7 @@ impl DynPw {
 }
 
 fn random_obj(rng: &mut Rng, q: bool) -> DynPw {
-    let n = 1 + rng.size(6, 8, 3) as usize;
+    let n = 1 + if rng.below(20) == 0 { 33 + rng.below(100) } else { rng.size(6, 8, 3) } as usize;
     let mut ends: Vec<f64> = match rng.below(3) {
         0 => (0..n).map(|_| rng.range(-3, 3) as f64).collect(),
         1 => (0..n).map(|_| rng.float_exp(-3, 3)).collect(),
